@@ -65,7 +65,7 @@ def seeds_table():
     res = load("seeded/RESULTS.json", {})
     rows = ["| seeded change | files | needs, to manifest | quick check result | first signatures |", "|---|---|---|---|---|"]
     caught = total = 0
-    for name in sorted(d for d in os.listdir(os.path.join(ROOT, "seeded")) if re.match(r"C\d\d-[AB]$", d)):
+    for name in sorted(d for d in os.listdir(os.path.join(ROOT, "seeded")) if re.match(r"C\d\d-[A-Z]$", d)):
         meta = load(f"seeded/{name}/meta.json", {})
         r = res.get(name, meta.get("check_result", {}))
         total += 1
